@@ -229,7 +229,7 @@ def check_race(case, r, obs, expect_success=True):
                     f"but the completing task's first client only finished at {t_first:.3f}",
                 )
         pre = max([sim_race.PREEMPT[i % len(sim_race.PREEMPT)] for i in (case.get("preempt") or [0])])
-        bound = t_star + 2 * (wake + 0.125) + 2 * max_delay + 2 * longest + 2.0 + 10 * pre
+        bound = t_star + 2 * (wake + 0.125) + 2 * max_delay + 2 * longest + 2.0 + 40 * pre
         late = [q for q in others if q["t_enter"] > bound]
         obs.check(
             not late,
